@@ -65,7 +65,7 @@ func strideCanon(st *core.Stride, err error) string {
 func runC06(c *sim.Ctx, t *testing.T) {
 	sim.Install(c)
 	defer sim.Uninstall()
-	cfg := genCfg{native: true, failOps: true, nullRet: true, permanents: true, badBranch: true, unknownNode: true, guards: true, guardEmits: true, loops: true, maxNodes: 5, propWrites: true, errorNode: true, sameStub: true, inPlace: true, inPlaceAll: true, globals: true, noop: true}
+	cfg := genCfg{native: true, failOps: true, nullRet: true, permanents: true, badBranch: true, unknownNode: true, guards: true, guardEmits: true, loops: true, maxNodes: 5, propWrites: true, errorNode: true, sameStub: true, inPlace: true, inPlaceAll: true, globals: true, noop: true, errName: true}
 	gs := genSpec(c, cfg)
 	spec, err := compile(gs)
 	if err != nil {
